@@ -10,7 +10,7 @@ observable and checked against generic invariants.
 from .. import flowcheck
 from .. import floworacle as fo
 
-LEAN_MODULES = ['Props.C02']
+LEAN_MODULES = ['Props.C02', 'Props.Agreement']
 TRUSTED = ['harness/flow_impl.py (yaml renderer, canonicaliser, virtual clock, scripted random.uniform)',
            'harness/probe/vprobe.py (probe step) and its model probeStep',
            'harness/floworacle.py (directed expectations written from the property text)',
